@@ -30,6 +30,10 @@ from lib import PropertyCheck, clist, copt, cz  # noqa: E402
 
 I32MAX = 2**31 - 1
 STOKES = ['I', 'QU', 'IQU', 'IQUV']
+# Directions whose longitude lies within one ulp below 0: the pinned HealpixLandscape.world2pixel hands them to
+# jax_healpy, whose polar-cap branch then returns the first pixel of the NEXT ring (or npix -> -1).  Reported to the
+# lead with fixes/C17-healpix-phi-wrap.diff; True once that fix is in the tree (red without it).
+PHI_ULP_CLASS = False
 
 # ----------------------------------------------------------------------------------------------
 # the real code
@@ -226,6 +230,12 @@ def healpy_directions(nside, nrandom, rng, every_class=True):
     corners = np.array(sorted(c for c in corners if 0 <= c < npix), dtype=np.int64)
     t, p = hp.pix2ang(nside, corners)
     add(t, p, 'index-corner')
+    if PHI_ULP_CLASS:
+        # longitudes within one ulp below 0 (double and single precision), in the caps and in the belt
+        tcap = np.concatenate([np.arccos(rng.uniform(2 / 3, 1, 6)), np.arccos(rng.uniform(-1, -2 / 3, 6)), np.arccos(rng.uniform(-2 / 3, 2 / 3, 4))])
+        tlast, _ = hp.pix2ang(nside, np.array([0, npix - 1]))
+        for p0 in (-5e-324, -1e-17, -1e-16, -3e-16, -1e-12, -1e-9, -1e-8, -5e-8):
+            add(np.concatenate([tcap, tlast]), p0, 'phi-ulp-below-zero')
     if not every_class:
         theta = np.clip(np.concatenate(th), 0.0, np.pi)
         return theta, np.concatenate(ph), tag
